@@ -169,7 +169,7 @@ fn gen_item(rng: &mut Rng, terms: &[&str], nrules: usize, depth: usize) -> It {
         0 => It::Opt(inner),
         1 => It::Star(inner),
         2 => It::Plus(inner),
-        _ => { let m = rng.below(3); It::Rep(inner, m, m + rng.below(3)) }
+        _ => { let m = rng.below(3); It::Rep(inner, m, (m + rng.below(3)).max(1)) } // `{0,0}` is not Lark syntax
     }
 }
 
@@ -251,11 +251,33 @@ fn parametric(idx: usize) -> (String, Vec<(usize, Vec<PS>)>, Vec<u8>) {
     }
 }
 
+/// many mutually dependent nullable symbols, referenced in every index order (stresses the
+/// nullable / conditional-nullable fixpoints and same-position completion)
+pub fn gen_nullable_web(rng: &mut Rng) -> (Cfg, Vec<u8>) {
+    loop {
+        let n = 3 + rng.below(5);
+        let terms = ["x", "y", "z"];
+        let rules: Vec<Vec<Vec<It>>> = (0..n).map(|i| {
+            let mut alts: Vec<Vec<It>> = vec![];
+            for _ in 0..1 + rng.below(2) {
+                alts.push((0..1 + rng.below(3)).map(|_| if rng.chance(3, 4) { It::Ref(rng.below(n)) } else { term_item(terms[rng.below(3)]) }).collect());
+            }
+            if rng.chance(1, 3) || i + 1 == n { alts.push(vec![]); }
+            if rng.chance(1, 2) { alts.push(vec![term_item(terms[rng.below(3)])]); }
+            alts
+        }).collect();
+        let g = Cfg { rules };
+        if !productive(&g.desugar()) { continue; }
+        return (g, b"xyz".to_vec());
+    }
+}
+
 pub fn gen_case(rng: &mut Rng, idx: usize, thorough: bool) -> Value {
     let nc = corpus().len();
-    let depth_budget = if thorough { 6000 } else { 1200 };
+    let depth_budget = if thorough { 3000 } else { 1200 };
     if idx < nc { return json!({"kind": "corpus", "i": idx, "budget": depth_budget}); }
     if idx < nc + 3 { return json!({"kind": "param", "i": idx - nc, "budget": depth_budget}); }
+    if idx % 2 == 0 { return json!({"kind": "nullable-web", "seed": rng.next() % 1_000_000_000, "budget": 300}); }
     json!({"kind": "random", "seed": rng.next() % 1_000_000_000, "budget": depth_budget})
 }
 
@@ -317,6 +339,7 @@ pub fn run_case(_ctx: &Ctx, case: &Value, tag: usize, rep: &mut Report, mb: &mut
             let rules = case["rules"].as_str().unwrap_or("").split(';').filter(|x| !x.is_empty()).map(|r| { let (l, rhs) = r.split_once(':').unwrap(); (l.parse().unwrap(), rhs.split(',').filter(|x| !x.is_empty()).map(|s| if let Some(n) = s.strip_prefix('n') { PS::N(n.parse().unwrap()) } else { let (a, b) = s[1..].split_once('-').unwrap(); PS::T(a.parse().unwrap(), b.parse().unwrap()) }).collect()) }).collect();
             (case["lark"].as_str().unwrap_or("").to_string(), rules, vocab::unhex(case["sigma"].as_str().unwrap_or("")), "replay".to_string())
         }
+        "nullable-web" => { let mut rng = Rng::new(case["seed"].as_u64().unwrap()); let (g, s) = gen_nullable_web(&mut rng); (g.to_lark(), g.desugar(), s, "nullable-web".to_string()) }
         _ => { let mut rng = Rng::new(case["seed"].as_u64().unwrap()); let (g, s) = gen_cfg(&mut rng); (g.to_lark(), g.desugar(), s, "random".to_string()) }
     };
     rep.count(&format!("family.{name}"));
@@ -351,7 +374,7 @@ pub fn run_case(_ctx: &Ctx, case: &Value, tag: usize, rep: &mut Report, mb: &mut
     }
     // multi-byte tokens: allowed(t) after p  <=>  p ++ t is a prefix of a derivable string
     let texts: Vec<Vec<u8>> = w.acc.iter().filter(|(k, a)| **a && k.len() >= 2).map(|(k, _)| k.clone()).take(40).collect();
-    if !texts.is_empty() {
+    if !texts.is_empty() && name != "nullable-web" {
         let mut rng = Rng::new(case["seed"].as_u64().unwrap_or(7) ^ 0x55);
         let (words, eos2) = vocab::synth_words(&mut rng, &texts, 24, None);
         if let Ok(world2) = World::new(words.clone(), eos2, false, None) {
